@@ -41,4 +41,9 @@ CHECKS: dict[str, dict] = {
         "text": "Decides for every pattern and IR: each PatternRewriter method (own or inherited from Builder) that reaches an IR-mutating primitive sets has_done_action on every such path (one accepted conditional idiom: set iff the list of re-routed users is non-empty); each mutation kind calls its listener hook in the order the walker needs; every handler list has a dispatcher, is forwarded and is wired into the walker together with the user's callbacks; the removal handler purges the erased op and all nested ops from the worklist; the worklist loop resets and accumulates the flag around every match and takes ops only from the worklist; every step of rewrite_region that can change the IR controls the re-walk loop; the applier stops after the first pattern that acted. Termination / fixpoint for arbitrary pattern sets and worklist order effects are not decided.",
         "note": 'Trusted: the set of IR-mutating primitives (Rewriter.* static methods and the mutators of core.py); moves (inline_block/inline_region/move_region_contents) set the flag but have no listener hook by design and are recorded, not reported.',
     },
+    "C13": {
+        "technique": _T + 'required-conjunct extraction of the removability predicate closed over helpers, guarded-action (control dependence) check of every erase site, fixpoint-loop and notification ordering on the CFG',
+        "text": "Decides for every program: the removability predicate is exactly the conjunction 'all results unused, not a terminator, not a symbol, effects known, each effect a read or an allocation of a value defined inside the op' (unknown effects mean not removable); every erase site of the dce pattern, region_dce, the greedy applier and CSE is control-dependent on that predicate or on liveness derived from it; liveness marks an op live iff it is not removable-if-unused or a user is live, re-propagates into nested regions on every call and iterates until no change; erased ops are announced before erasure; the entry block is never erased; reachability follows possibly-unregistered terminators. Effect declarations of individual dialect operations (the trusted input of the predicate) are not decided.",
+        "note": 'Trusted: MemoryEffect traits declared on operations are right; Python set semantics.',
+    },
 }
